@@ -1900,6 +1900,43 @@ def monotone_lines(func):
     rec(func.body)
 
 
+def _lin(e):
+    """(base_dump, base_node, offset) of  base, base + c, base - c"""
+    if isinstance(e, ast.BinOp) and isinstance(e.op, (ast.Add, ast.Sub)) and isinstance(e.right, ast.Constant) and isinstance(e.right.value, int):
+        c = e.right.value if isinstance(e.op, ast.Add) else -e.right.value
+        return ast.dump(e.left), e.left, c
+    if isinstance(e, ast.Constant) and isinstance(e.value, int):
+        return 'const', None, e.value
+    return ast.dump(e), e, 0
+
+
+def split_slice_unpack(func):
+    """a, b, c = X[i - 1:i + 2]   ->   a = X[i - 1] ; b = X[i] ; c = X[i + 1]      (the slice has exactly as many elements as targets)"""
+    n = 0
+    for owner, fld, blk in blocks_of(func):
+        for st in list(blk):
+            if isinstance(st, ast.Assign) and len(st.targets) == 1 and isinstance(st.targets[0], ast.Tuple) and all(isinstance(t, ast.Name) for t in st.targets[0].elts) \
+                    and isinstance(st.value, ast.Subscript) and isinstance(st.value.slice, ast.Slice) and st.value.slice.step is None and st.value.slice.lower is not None and st.value.slice.upper is not None:
+                d1, b1, c1 = _lin(st.value.slice.lower)
+                d2, b2, c2 = _lin(st.value.slice.upper)
+                if d1 != d2 or c2 - c1 != len(st.targets[0].elts):
+                    continue
+                new = []
+                for k_, t in enumerate(st.targets[0].elts):
+                    c = c1 + k_
+                    if b1 is None:
+                        idx = ast.Constant(value=c)
+                    elif c == 0:
+                        idx = copy.deepcopy(b1)
+                    else:
+                        idx = ast.BinOp(left=copy.deepcopy(b1), op=ast.Add() if c > 0 else ast.Sub(), right=ast.Constant(value=abs(c)))
+                    new.append(fix(ast.Assign(targets=[ast.Name(id=t.id, ctx=ast.Store())], value=ast.Subscript(value=copy.deepcopy(st.value.value), slice=idx, ctx=ast.Load())), st))
+                i = blk.index(st)
+                blk[i:i + 1] = new
+                n += 1
+    return n
+
+
 def split_tuple_assigns(func):
     n = 0
     while rw_split_tuple_assign_safe(func):
